@@ -66,6 +66,7 @@ package basicnode
 //@   ensures[C01] unbox(nb, "*plainMap__Builder").plainMap__Assembler.state == maState_initial && fresh(unbox(nb, "*plainMap__Builder").plainMap__Assembler.w)
 
 //@ func (*plainMap__Builder).Build() (n)
+//@   rejects[C12] nb != nil && nb.plainMap__Assembler.state != maState_finished
 //@   requires nb != nil && nb.plainMap__Assembler.state == maState_finished
 //@   assigns nothing
 //@   ensures[C01,C12] n == iface(nb.plainMap__Assembler.w)
@@ -221,6 +222,7 @@ package basicnode
 //@   ensures[C01] unbox(nb, "*plainList__Builder").plainList__Assembler.state == laState_initial && fresh(unbox(nb, "*plainList__Builder").plainList__Assembler.w)
 
 //@ func (*plainList__Builder).Build() (n)
+//@   rejects[C12] nb != nil && nb.plainList__Assembler.state != laState_finished
 //@   requires nb != nil && nb.plainList__Assembler.state == laState_finished
 //@   assigns nothing
 //@   ensures[C01,C12] n == iface(nb.plainList__Assembler.w)
@@ -306,12 +308,14 @@ package basicnode
 //@   ensures[C01,C11] nb.mapBuilder.plainMap__Assembler.state == maState_initial && nb.listBuilder.plainList__Assembler.state == laState_initial
 
 //@ func (*anyBuilder).BeginMap(sizeHint) (ma, err)
+//@   rejects[C12] nb != nil && nb.kind != datamodel.Kind_Invalid
 //@   requires nb != nil && nb.kind == datamodel.Kind_Invalid && nb.mapBuilder.plainMap__Assembler.state == maState_initial && sizeHint <= 8796093022208
 //@   assigns nb.kind, nb.mapBuilder.plainMap__Assembler.w
 //@   ensures[C01,C11] err == nil && nb.kind == datamodel.Kind_Map && fresh(nb.mapBuilder.plainMap__Assembler.w) && ma == iface(&nb.mapBuilder.plainMap__Assembler)
 //@   ensures[C01,C12] wip(&nb.mapBuilder.plainMap__Assembler) && len(nb.mapBuilder.plainMap__Assembler.w.t) == 0 && fresh(nb.mapBuilder.plainMap__Assembler.w.t) && fresh(nb.mapBuilder.plainMap__Assembler.w.m)
 
 //@ func (*anyBuilder).BeginList(sizeHint) (la, err)
+//@   rejects[C12] nb != nil && nb.kind != datamodel.Kind_Invalid
 //@   requires nb != nil && nb.kind == datamodel.Kind_Invalid && nb.listBuilder.plainList__Assembler.state == laState_initial && sizeHint <= 8796093022208
 //@   assigns nb.kind, nb.listBuilder.plainList__Assembler.w
 //@   ensures[C01,C11] err == nil && nb.kind == datamodel.Kind_List && fresh(nb.listBuilder.plainList__Assembler.w) && la == iface(&nb.listBuilder.plainList__Assembler)
@@ -328,16 +332,19 @@ package basicnode
 //@   ensures[C01,C12] nb.kind != datamodel.Kind_Map && nb.kind != datamodel.Kind_List && nb.kind != datamodel.Kind_Null ==> n == nb.scalarNode
 
 //@ func (*anyBuilder).AssignInt(v) (err)
+//@   rejects[C12] nb != nil && nb.kind != datamodel.Kind_Invalid
 //@   requires nb != nil && nb.kind == datamodel.Kind_Invalid
 //@   assigns nb.kind, nb.scalarNode
 //@   ensures[C01,C12] err == nil && nb.kind == datamodel.Kind_Int && fresh(nb.scalarNode) && dyntype(nb.scalarNode, "*plainInt") && *unbox(nb.scalarNode, "*plainInt") == v
 
 //@ func (*anyBuilder).AssignString(v) (err)
+//@   rejects[C12] nb != nil && nb.kind != datamodel.Kind_Invalid
 //@   requires nb != nil && nb.kind == datamodel.Kind_Invalid
 //@   assigns nb.kind, nb.scalarNode
 //@   ensures[C01,C12] err == nil && nb.kind == datamodel.Kind_String && fresh(nb.scalarNode) && dyntype(nb.scalarNode, "*plainString") && *unbox(nb.scalarNode, "*plainString") == v
 
 //@ func (*anyBuilder).AssignNode(v) (err)
+//@   rejects[C12] nb != nil && nb.kind != datamodel.Kind_Invalid
 //@   requires nb != nil && nb.kind == datamodel.Kind_Invalid
 //@   assigns nb.kind, nb.scalarNode
 //@   ensures[C01,C12] err == nil && nb.kind == 99 && nb.scalarNode == v
